@@ -1,6 +1,7 @@
 """riolib.report — obligations, violations, known findings, evidence and replay files."""
 import json
 import os
+import shutil
 import time
 
 VERIF = os.path.dirname(os.path.dirname(os.path.abspath(__file__)))
@@ -205,6 +206,10 @@ def finalize(ctx, configs=None, extra_violations=None):
     with open(tmp, "w") as fh:
         json.dump(ev, fh, indent=1, default=str)
     os.replace(tmp, os.path.join(EVIDENCE_DIR, "%s.json" % ctx.prop))
+    if ctx.tier == "thorough":
+        # keep the last thorough-tier evidence next to the (more frequently rewritten) quick one
+        os.makedirs(os.path.join(EVIDENCE_DIR, "thorough"), exist_ok=True)
+        shutil.copyfile(os.path.join(EVIDENCE_DIR, "%s.json" % ctx.prop), os.path.join(EVIDENCE_DIR, "thorough", "%s.json" % ctx.prop))
     print("%s: %d rules, %d obligations, %d discharged, %d known findings, %d violations (%.1fs)" % (
         ctx.prop, len(ctx.rules), total, discharged, len(known_hits), len(violations), wall))
     return 1 if violations else 0
